@@ -17,6 +17,8 @@ carries the produced text, the set of files in the scratch directory is unchange
 Mixed lines (L1 and L2-mixed): the operator-only values (`<`, `<<<`, `>`, `>>`, `|`, `&`, `2>&1`, ...) double-quoted on
 lines that ALSO carry one genuine operator (`< f`, `<<< w`, `> f`, `>> f`, `2>&1`, `| sink`, trailing `&`), value before
 and after it: the plan / the observable behaviour must be exactly that of a harmless value in the same place.
+Alias bodies: the same values through a double-quoted `"$A"` / `"${A}"` / `"$(cmd)"` written in the VALUE of an alias used
+as the command word (first / middle / last word of the body), L1 with the alias table in the shell, L2 through a script.
 Known-finding classes (mirroring Known_C13 of Properties/C13.v) are handled three-way."""
 import os, re, shutil, subprocess, tempfile
 import common as C
@@ -30,7 +32,7 @@ PINNED = ["C13_dq", "C13_unquoted_full", "C13_refuted", "C13_unquoted_partial", 
           "C13_subst_refuted", "C13_glob_refuted", "C13_output_refuted", "C13_post_passes", "C13_post_passes_exact",
           "C13_known_is_not_inert", "C13_unquoted_exact_text", "C13_tokenize_unquoted", "C13_post_passes_from",
           "C13_dq_with_input", "C13_witness_value_and_genuine_lt", "C13_glob_blank", "C13_glob_tag_whole_path",
-          "C13_expand_glob_one", "C13_witness_glob_dir", "C13_witness_pipe", "C13_witness_gt", "C13_witness_amp", "C13_witness_lt", "C13_nonvacuous"]
+          "C13_expand_glob_one", "C13_witness_glob_dir", "C13_dq_in_alias_body", "C13_witness_alias_body", "C13_witness_pipe", "C13_witness_gt", "C13_witness_amp", "C13_witness_lt", "C13_nonvacuous"]
 TRUSTED = [
     "Coq 8.16.1 kernel (coqc; coqchk in thorough); vm_compute only in concrete witnesses / non-vacuity examples",
     "hand transcriptions composed by Model/FullPlan.v: parse_line (Model/Tokenizer.v), do_expansion and its passes "
@@ -339,6 +341,44 @@ def mixed_cases(ctx, empty):
     return cases
 
 
+# ---------------------------------------------------------------- a double-quoted expansion written INSIDE AN ALIAS BODY
+ALIAS = "show"
+ALIAS_BODY_POS = [("first", "{V} y z", [], ["y", "z"]), ("middle", "y {V} z", ["y"], ["z"]), ("last", "y z {V}", ["y", "z"], [])]
+ALIAS_LINES = [(ALIAS, []), (ALIAS + " 'w'", ["w"])]
+
+
+def alias_cases(ctx, work, empty):
+    """alias show='prog .. "$A" ..'; the line is `show` / `show 'w'`.  expand_alias runs BEFORE the other passes and
+    must insert the body's tokens WITH their tags, so the double-quoted word of the body behaves as one written on the line."""
+    rng = ctx.rng
+    cases = []
+    values = VALUES_OP + VALUES_TXT + VALUES_EXP
+    for v in values:
+        for pre, ref, post in (("", "$A", ""), ("", "${A}", ""), ("p", "${A}", ".q")):
+            for bname, btpl, b_before, b_after in ALIAS_BODY_POS:
+                for line, extra in (ALIAS_LINES if v in VALUES_OP else [rng.choice(ALIAS_LINES)]):
+                    body = PROG + " " + btpl.replace("{V}", '"' + pre + ref + post + '"')
+                    text = pre + v + post
+                    cases.append({"kind": "alias", "line": line, "body": body,
+                                  "ents": [("A", ALIAS, body), ("E", "A", v), ("S", "X", "WRONG"), ("D", "", empty)]
+                                          + [("R", c, o) for c, o in INNER.items()],
+                                  "quoted": True, "text": text, "value": v, "before": b_before, "after": b_after + extra,
+                                  "classes": subst_classes(text), "alts": [[text]]})
+    csub = os.path.join(ctx.helpers, "csub")
+    for i, o in enumerate(OUTS):
+        f = os.path.join(work, "o%d" % i)     # written by subst_cases
+        inner = "%s %s" % (csub, f)
+        for sub in ("$(%s)" % inner, "`%s`" % inner):
+            for bname, btpl, b_before, b_after in ALIAS_BODY_POS:
+                line, extra = ALIAS_LINES[(i + len(bname)) % 2]
+                body = PROG + " " + btpl.replace("{V}", '"' + sub + '"')
+                cases.append({"kind": "alias", "line": line, "body": body,
+                              "ents": [("A", ALIAS, body), ("R", inner, o + "\n"), ("D", "", empty)],
+                              "quoted": True, "text": o, "value": o, "before": b_before, "after": b_after + extra,
+                              "classes": set(), "alts": [[o]], "subst": True})
+    return cases
+
+
 # ---------------------------------------------------------------- run
 def run(ctx, res):
     rng = ctx.rng
@@ -372,6 +412,7 @@ def run(ctx, res):
         cases += subst_cases(ctx, work)
         cases += glob_cases(ctx, work)
         cases += mixed_cases(ctx, empty)
+        cases += alias_cases(ctx, work, empty)
         res.rule = ("L1: %d listed values (every operator character alone and embedded, blanks, quotes, dollar, braces, newlines, "
                     "glob / brace / substitution syntax) + random values over %r, delivered through $NAME and ${NAME} (process "
                     "environment or shell variable), $(..) and backquotes (%d outputs), `*` matches (%d directory populations), each "
@@ -399,6 +440,8 @@ def run(ctx, res):
             inp = {"line": c["line"], "world": [(k, a, b) for k, a, b in c["ents"] if k in "ESRG"], "delivery": c["kind"]}
             if c["kind"] == "glob":
                 inp["files_in_cwd"] = c["pop"]
+            if c["kind"] == "alias":
+                inp["aliases"] = {ALIAS: c["body"]}
             if not o.startswith("exp="):
                 violate(kind="oracle", layer="L1", input=inp, observed=o, failing_input=True,
                         note="from_line panicked / hung / crashed on a command line of the property's domain")
@@ -454,6 +497,13 @@ def run(ctx, res):
         others = [c for c in cases if c["kind"] in ("dollar", "bq") and not any(x in c["value"] for x in "'\"\n")]
         rng.shuffle(others)
         l2 += others[:(500 if ctx.thorough else 60)]
+        al = [c for c in cases if c["kind"] == "alias"]
+        rng.shuffle(al)
+        # through the binary the alias is DEFINED by a script line: a backquote substitution inside the definition word would
+        # run at definition time (the word show='..' is untagged), and a quote character in an output meets argv unquoting --
+        # neither is the delivery path under test; both stay in L1, where the alias table is set directly
+        al = [c for c in al if not (c.get("subst") and ("`" in c["body"] or any(x in c["value"] for x in "'\"\n")))]
+        l2 += [c for c in al if c["value"] in VALUES_OP][:(700 if ctx.thorough else 90)] + [c for c in al if c["value"] not in VALUES_OP][:(300 if ctx.thorough else 30)]
         gl = [c for c in cases if c["kind"] == "glob"]
         rng.shuffle(gl)
         l2 += [c for c in gl if c.get("must")] + [c for c in gl if not c.get("must")][:(200 if ctx.thorough else 40)]
@@ -478,9 +528,18 @@ def run(ctx, res):
                 for n in c["pop"]:
                     os.makedirs(os.path.dirname(os.path.join(d, n)), exist_ok=True)
                     open(os.path.join(d, n), "w").close()
+            argv = [ctx.cicada, "-c", line]
+            if c["kind"] == "alias":
+                # a script: the alias definition (body between single quotes), then the line that uses it
+                if not c.get("subst"):
+                    env["A"] = c["value"]
+                script = os.path.join(work, "s%d.sh" % ix)
+                line = "alias %s='%s'\n%s\n" % (ALIAS, c["body"].replace(PROG, hp + " @x7", 1), c["line"])
+                open(script, "w").write(line)
+                argv = [ctx.cicada, script]
             before = tree(d)
             try:
-                pr = subprocess.run([ctx.cicada, "-c", line], cwd=d, env=env, stdin=subprocess.DEVNULL,
+                pr = subprocess.run(argv, cwd=d, env=env, stdin=subprocess.DEVNULL,
                                     stdout=subprocess.PIPE, stderr=subprocess.PIPE, timeout=20)
                 rc = pr.returncode
             except subprocess.TimeoutExpired:
@@ -517,7 +576,7 @@ def run(ctx, res):
             key = "+".join(sorted(kcs)) or "none"
             stats2["fail:" + key] = stats2.get("fail:" + key, 0) + 1
             obs = {"status": rc, "helper_runs": recs, "files_before": before, "files_after": after}
-            inp = {"line": line, "env": {"A": c["value"]} if c["kind"] == "var" else {}, "files": c.get("pop", [])}
+            inp = {"line": line, "env": {"A": c["value"]} if c["kind"] in ("var", "alias") and not c.get("subst") else {}, "files": c.get("pop", [])}
             if not kcs:
                 violate(kind="oracle", layer="L2", input=inp, observed=obs, failing_input=True,
                         expected="status 7, one run of the helper with words %r + %r + %r, no file created" % (c["before"], alts, c["after"]),
